@@ -39,6 +39,9 @@ fn main() {
         ),
         "c12_request_gate" => c12_request_gate(args.get(2).map(|s| s.as_str()).unwrap_or("")),
         "c12_send_order" => c12_send_order(),
+        "c10_stale_limit" => c10_stale_limit(),
+        "c09_split_halves" => c09_split_halves(),
+        "c19_payload_with_header" => c19_payload_with_header(),
         "c19_uni_header" => c19_uni_header(
             args.get(2).map(|s| s.as_str()).unwrap_or(""),
             args.get(3).map(|s| s.as_str()).unwrap_or(""),
@@ -805,7 +808,7 @@ fn c12_field_gate(name_hex: &str, value_hex: &str) -> i32 {
 }
 
 /// Request assembly for a combination of flags (letters): m = :method present, a = :authority "a", h = Host "a",
-/// H = Host "b" (contradicts :authority "a"). Reproduces if the outcome differs from the rule in the property.
+/// H = Host "b" (contradicts :authority "a"), C = Host "A" (differs from :authority "a" in letter case only). Reproduces if the outcome differs from the rule in the property.
 fn c12_request_gate(flags: &str) -> i32 {
     use h3::proto::headers::Header;
     use h3::qpack::HeaderField;
@@ -822,9 +825,13 @@ fn c12_request_gate(flags: &str) -> i32 {
     if flags.contains('H') {
         f.push(HeaderField::new(&b"host"[..], &b"b"[..]));
     }
+    if flags.contains('C') {
+        // differs from :authority "a" only in letter case
+        f.push(HeaderField::new(&b"host"[..], &b"A"[..]));
+    }
     let accepted = Header::try_from(f).map(|h| h.into_request_parts().is_ok()).unwrap_or(false);
-    let has_auth = flags.contains('a') || flags.contains('h') || flags.contains('H');
-    let contradict = flags.contains('a') && flags.contains('H');
+    let has_auth = flags.contains('a') || flags.contains('h') || flags.contains('H') || flags.contains('C');
+    let contradict = flags.contains('a') && (flags.contains('H') || flags.contains('C'));
     let legal = flags.contains('m') && has_auth && !contradict;
     println!("flags {:?}: accepted={} legal={}", flags, accepted, legal);
     if accepted != legal {
@@ -946,4 +953,185 @@ fn c19_uni_header(script: &str, bytes_hex: &str, must_surface: bool) -> i32 {
         }
     }
     0
+}
+
+
+/// Client: send_request has to wait for stream credit (poll_open_bidi pending); meanwhile the server's SETTINGS arrive
+/// with max_field_section_size = 50; then credit is granted. The request's field section is far larger than 50, so the
+/// call must end in HeaderTooBig and nothing may be written on the request stream. Reproduces if HEADERS bytes go out.
+fn c10_stale_limit() -> i32 {
+    use std::future::Future;
+    let mock = Mock::new(false);
+    let (mut conn, mut send) = drive(h3::client::builder().build::<_, _, Bytes>(mock.clone()), 10)
+        .expect("build completes").expect("build ok");
+    mock.world.lock().unwrap().open_bidi.push_back(Ready::Pending);
+    let req = http::Request::builder()
+        .uri("https://a/")
+        .header("x-big", "0123456789012345678901234567890123456789012345678901234567890123456789")
+        .body(())
+        .unwrap();
+    let (_c, waker) = counting_waker();
+    let mut cx = Context::from_waker(&waker);
+    let mut fut = Box::pin(send.send_request(req));
+    let first = fut.as_mut().poll(&mut cx);
+    println!("send_request poll 0: {}", if first.is_pending() { "Pending (no stream credit yet)" } else { "Ready" });
+    // the peer's control stream: type 0x00, SETTINGS { MAX_FIELD_SECTION_SIZE (0x06) = 50 }
+    mock.push_uni(3, vec![RecvEvent::Data(vec![0x00, 0x04, 0x02, 0x06, 50])]);
+    let d = conn.poll_close(&mut cx);
+    println!("driver poll: {}", if d.is_pending() { "Pending" } else { "Ready" });
+    let second = fut.as_mut().poll(&mut cx);
+    let outcome = match &second {
+        Poll::Pending => "Pending".to_string(),
+        Poll::Ready(Ok(_)) => "Ok(request stream)".to_string(),
+        Poll::Ready(Err(e)) => format!("Err({:?})", e),
+    };
+    let sent = mock.world.lock().unwrap().log.sent.get(&0).map(|b| b.len()).unwrap_or(0);
+    println!("send_request poll 1: {}; bytes written on the request stream: {}", outcome, sent);
+    std::mem::forget(second);
+    std::mem::forget(fut);
+    std::mem::forget(conn);
+    if sent > 0 {
+        println!("REPRODUCED: a field section larger than the limit the peer has advertised (50) was sent");
+        return 1;
+    }
+    0
+}
+
+
+/// Server with WebTransport enabled: a unidirectional WebTransport stream (type 0x54, session id 8, payload "hello", FIN)
+/// arrives under several chunkings, among them every cut of the 8 bytes into two chunks and 'everything at once'; the
+/// stream is surfaced by the connection and then read through quic::RecvStream::poll_data as h3-webtransport does.
+/// Reproduces if for some chunking the session id is not 8 or the payload is not exactly "hello".
+fn c19_payload_with_header() -> i32 {
+    use h3::quic::RecvStream as _;
+    let wire = [0x40u8, 0x54, 0x08, b'h', b'e', b'l', b'l', b'o'];
+    let mut scripts: Vec<Vec<RecvEvent>> = vec![vec![RecvEvent::Data(wire.to_vec()), RecvEvent::Fin]];
+    for cut in 1..wire.len() {
+        scripts.push(vec![RecvEvent::Data(wire[..cut].to_vec()), RecvEvent::Data(wire[cut..].to_vec()), RecvEvent::Fin]);
+        scripts.push(vec![RecvEvent::Data(wire[..cut].to_vec()), RecvEvent::Pending, RecvEvent::Data(wire[cut..].to_vec()), RecvEvent::Fin]);
+    }
+    scripts.push(wire.iter().map(|b| RecvEvent::Data(vec![*b])).chain(std::iter::once(RecvEvent::Fin)).collect());
+    let (_c, waker) = counting_waker();
+    let mut cx = Context::from_waker(&waker);
+    let mut rc = 0;
+    for script in scripts {
+        let desc = format!("{:?}", script);
+        let mock = Mock::new(true);
+        let mut b = h3::server::builder();
+        b.enable_webtransport(true).enable_extended_connect(true).enable_datagram(true).max_webtransport_sessions(1);
+        let mut conn: h3::server::Connection<Mock, Bytes> = drive(b.build(mock.clone()), 10).expect("build completes").expect("build ok");
+        mock.push_uni(2, script);
+        for _ in 0..12 {
+            let _ = conn.poll_accept_request_stream(&mut cx);
+        }
+        let mut streams = std::mem::take(&mut conn.inner.accepted_streams_mut().wt_uni_streams);
+        if streams.len() != 1 {
+            println!("{}: {} streams surfaced", desc, streams.len());
+            println!("REPRODUCED: the WebTransport stream is not surfaced");
+            rc = 1;
+            std::mem::forget(conn);
+            continue;
+        }
+        let (id, mut stream) = streams.pop().unwrap();
+        let mut payload = Vec::new();
+        for _ in 0..20 {
+            match stream.poll_data(&mut cx) {
+                Poll::Ready(Ok(Some(c))) => payload.extend_from_slice(&c),
+                Poll::Ready(Ok(None)) => break,
+                Poll::Ready(Err(_)) => break,
+                Poll::Pending => {}
+            }
+        }
+        let want = h3::webtransport::SessionId::try_from(8u64).unwrap();
+        if id != want || payload != b"hello" {
+            println!("{}: session id {:?}, payload {:?}", desc, id, String::from_utf8_lossy(&payload));
+            println!("REPRODUCED: the payload behind the stream header is not delivered complete and unmodified");
+            rc = 1;
+        }
+        std::mem::forget(stream);
+        std::mem::forget(conn);
+    }
+    if rc == 0 {
+        println!("session id 8 and payload \"hello\" under every chunking tried");
+    }
+    rc
+}
+
+
+/// Server: one request is accepted, resolved and split into its send and receive halves; the peer then announces
+/// GOAWAY(0). One half is dropped, the other is kept: the request is still in progress, so accept() must NOT report
+/// 'no more requests'. After the second half is dropped it must. Tried with either half dropped first.
+fn c09_split_halves() -> i32 {
+    let mut rc = 0;
+    for drop_send_first in [true, false] {
+        let mock = Mock::new(true);
+        let mut conn: h3::server::Connection<Mock, Bytes> =
+            drive(h3::server::builder().build(mock.clone()), 10).expect("build completes").expect("build ok");
+        let block = [0x00u8, 0x00, 0xd1, 0xd7, 0xc1, 0x50, 0x01, b'a'];
+        let mut bytes = vec![0x01, block.len() as u8];
+        bytes.extend_from_slice(&block);
+        mock.push_bidi(0, vec![RecvEvent::Data(bytes)]);
+        let resolver = match drive(conn.accept(), 10) {
+            Some(Ok(Some(r))) => r,
+            _ => {
+                println!("request not accepted");
+                return 0;
+            }
+        };
+        let (_req, stream) = match drive(resolver.resolve_request(), 10) {
+            Some(Ok(x)) => x,
+            _ => {
+                println!("request not resolved");
+                return 0;
+            }
+        };
+        let (send_half, recv_half) = stream.split();
+        // the client's control stream: SETTINGS, then GOAWAY(0)
+        mock.push_uni(2, vec![RecvEvent::Data(vec![0x00, 0x04, 0x00, 0x07, 0x01, 0x00])]);
+        let mut kept_send = None;
+        let mut kept_recv = None;
+        if drop_send_first {
+            drop(send_half);
+            kept_recv = Some(recv_half);
+        } else {
+            drop(recv_half);
+            kept_send = Some(send_half);
+        }
+        let (_c, waker) = counting_waker();
+        let mut cx = Context::from_waker(&waker);
+        let mut early = false;
+        for i in 0..4 {
+            let r = conn.poll_accept_request_stream(&mut cx);
+            let d = match &r {
+                Poll::Pending => "Pending".to_string(),
+                Poll::Ready(Ok(None)) => "Ready(Ok(None))".to_string(),
+                Poll::Ready(Ok(Some(_))) => "Ready(Ok(Some))".to_string(),
+                Poll::Ready(Err(e)) => format!("Ready(Err({:?}))", e),
+            };
+            println!("{} half dropped, other half alive, accept poll {}: {}", if drop_send_first { "send" } else { "recv" }, i, d);
+            if matches!(r, Poll::Ready(Ok(None))) {
+                early = true;
+            }
+            std::mem::forget(r);
+        }
+        if early {
+            println!("REPRODUCED: accept() reports 'no more requests' while one half of a split request is still in use");
+            rc = 1;
+        }
+        drop(kept_send);
+        drop(kept_recv);
+        let mut ended = false;
+        for _ in 0..4 {
+            if matches!(conn.poll_accept_request_stream(&mut cx), Poll::Ready(Ok(None))) {
+                ended = true;
+            }
+        }
+        println!("both halves dropped: accept reports 'no more requests': {}", ended);
+        if !ended {
+            println!("REPRODUCED: accept() does not end after both halves of the request were dropped");
+            rc = 1;
+        }
+        std::mem::forget(conn);
+    }
+    rc
 }
